@@ -117,10 +117,10 @@ class Cls:
 
 
 class Mod:
-    def __init__(self, name, path, root):
+    def __init__(self, name, path, root, overlay=None):
         self.name, self.path = name, path
         self.relpath = str(path.relative_to(root))
-        self.src = path.read_text()
+        self.src = overlay[self.relpath] if (overlay and self.relpath in overlay) else path.read_text()
         self.lines = self.src.splitlines()
         self.sha = hashlib.sha256(self.src.encode()).hexdigest()
         try:
@@ -149,8 +149,9 @@ class Mod:
 
 
 class Program:
-    def __init__(self, root=None):
+    def __init__(self, root=None, overlay=None):
         self.root = pathlib.Path(root) if root else repo_root()
+        self.overlay = overlay or {}
         self.mods = {}
         pk = self.root / PKG
         if not pk.is_dir():
@@ -161,7 +162,7 @@ class Program:
             name = '.'.join(rel.parts)
             if name.endswith('.__init__'):
                 name = name[:-9]
-            self.mods[name] = Mod(name, p, self.root)
+            self.mods[name] = Mod(name, p, self.root, self.overlay)
         for m in self.mods.values():
             self._index(m)
         self._nested = {}
